@@ -32,3 +32,8 @@ Example C04_nonvacuous :
   from_usart [] = Fail CobsError /\
   from_usart [14; 165; 85; 85; 85; 8; 85; 85; 85; 85; 85; 85; 85; 85] = Val (mkF true false true false 1365 21845 8 [85; 85; 85; 85; 85; 85; 85; 85]).
 Proof. repeat split; reflexivity. Qed.
+
+(* the extracted checker accepts the model's observation for every byte string *)
+Require Import RP.Glue.Wire RP.Glue.StreamFrame RP.Lemmas.GlueLemmas.
+Theorem C04_checker_accepts_model : forall bs, bytes bs = true -> ok_C04_USD bs (run_USD bs) = [].
+Proof. exact ok_C04_USD_accepts_model. Qed.
